@@ -33,6 +33,7 @@
 #include <algorithm>
 #include <array>
 #include <typeinfo>
+#include <filesystem>
 
 using namespace stir;
 using rpdi::Cfg;
@@ -40,6 +41,8 @@ typedef DetectionPositionPair<> DPP;
 typedef LORInAxialAndNoArcCorrSinogramCoordinates<float> SinoLOR;
 
 static const double EPSF = 1.2e-7;
+// private directory of this process for the crystal-map files (the shards of one run share ctx.tmpdir)
+static std::string g_tmp;
 
 struct Run
 {
@@ -126,7 +129,7 @@ static bool build_geo(Run& run, Geo& g)
   vmc::Ctx& ctx = run.ctx;
   const Cfg& c = run.c;
   std::string what;
-  if (small::throws([&] { g.sc = rpdi::make_scanner(c, ctx.tmpdir); g.pdi = rpdi::make_pdi(c, g.sc); }, &what))
+  if (small::throws([&] { g.sc = rpdi::make_scanner(c, g_tmp); g.pdi = rpdi::make_pdi(c, g.sc); }, &what))
     {
       ctx.count("rejected_configs");
       return false;
@@ -711,7 +714,7 @@ static void run_arccorr(vmc::Ctx& ctx, const std::string& cs)
   shared_ptr<Scanner> sc;
   shared_ptr<ProjDataInfo> pdi;
   std::string what;
-  if (small::throws([&] { sc = rpdi::make_scanner(c, ctx.tmpdir); pdi = rpdi::make_pdi(c, sc); }, &what)) { ctx.count("rejected_configs"); return; }
+  if (small::throws([&] { sc = rpdi::make_scanner(c, g_tmp); pdi = rpdi::make_pdi(c, sc); }, &what)) { ctx.count("rejected_configs"); return; }
   const ProjDataInfoCylindricalNoArcCorr* pn = dynamic_cast<const ProjDataInfoCylindricalNoArcCorr*>(pdi.get());
   const int D = sc->get_num_detectors_per_ring();
   if (!pn || D < 4 || D % 2 || sc->get_default_bin_size() <= 0) { ctx.count("rejected_configs"); return; }
@@ -1005,6 +1008,9 @@ int main(int argc, char** argv)
   ctx.assume("arc correction: data are step functions; non-arc-corrected bin t covers [R sin((t-1/2) pi/D), R sin((t+1/2) pi/D)] (bins tile the tangential axis); integral = sum value*width; unit rows whose bin is partly outside the output range and output bins partly outside the input range only get one-sided checks");
   ctx.assume("the never-initialised diagonal entries of STIR's det1det2_to_uncompressed_view_tangpos table are set to (view 0, tangential position 0) by the harness so that reads of them (get_bin with both LOR ends rounding to one detector) have a deterministic outcome");
   ctx.assume("axial trimming, set_ring_radii_for_all_views, non-zero bed positions and HiDAC-like non-ring data are not enumerated");
+  g_tmp = ctx.tmpdir + "/C12_" + std::to_string((long)getpid());
+  std::filesystem::create_directories(g_tmp);
+  struct Cleanup { ~Cleanup() { std::error_code ec; std::filesystem::remove_all(g_tmp, ec); } } cleanup;
   if (ctx.replaying()) { run_case(ctx, ctx.replay); return ctx.finish(); }
   const std::vector<std::string> cfgs = enumerate(ctx.thorough());
   ctx.maxi("units_enumerated", (long long)cfgs.size());
